@@ -59,6 +59,15 @@ theorem lexFrom_sfLit (st : St) (hb : st.boundary = true) (s post : List Char) (
   rw [lexFrom_strQ _ post h]
   cases lex post <;> simp
 
+/-- the body of a block comment produces no token -/
+theorem run_block_body (body : List Char) (h : '*' ∉ body) : run .block (body ++ ['*', '/']) = ([], .top) := by
+  induction body with
+  | nil => simp [run, step]
+  | cons c cs ih =>
+    have hc : c ≠ '*' := fun e => h (by simp [e])
+    have := ih (fun hm => h (by simp [hm]))
+    simp [run, step, hc, this]
+
 /-- `;` read between tokens is the separator -/
 theorem step_boundary_semi (st : St) (h : st.boundary = true) : step st ';' = (pending st ++ [.semi], .top) := by
   cases st <;> simp_all [St.boundary, step, stepTop, thenTop, pending]
